@@ -7,7 +7,11 @@ open CaddyModel.C01
 #print axioms accepted_is_ok_or_same
 #print axioms rejected_leaves_no_module
 #print axioms reachable_invariants
+#print axioms accepted_sets_default_storage
+#print axioms default_storage_untouched_before_run
+#print axioms default_storage_partial
 #print axioms history_atomic
 #print axioms step_atomic
 #print axioms stop_leaves_nothing
 #print axioms load_atomic_old_code_fails
+#print axioms default_storage_full_fails
